@@ -491,6 +491,44 @@ def r_replace(prog, R):
     r.require(n >= 6, "fewer than 6 owning stores into existing record storage found")
 
 
+def r_nodangle(prog, R):
+    r = R.rule("R-C02-NODANGLE", "a result pointer released inside the function that hands it out is reset before the function returns: after ares_free(*out) (or a release function "
+               "given *out) every path to a return stores to *out again, so an error never leaves the caller a pointer to freed memory", floor=4,
+               analysis="A-DOM must-pass-through (store to *out between the release and every exit)")
+    n = 0
+    for f in sorted(prog.funcs.values(), key=lambda x: x.key):
+        if not f.file.startswith("src/lib/"):
+            continue
+        pnames = {p_["n"] for p_ in f.params if (p_.get("ty") or "").rstrip().endswith("**") or (p_.get("ty") or "").count("*") >= 2}
+        if not pnames:
+            continue
+        for b, i, c in f.calls():
+            cn = c.get("callee") or ""
+            if not (cn == "ares_free" or cn.endswith(("_free", "_destroy")) or cn in ("ares_free_string", "ares_free_hostent", "ares_free_data", "ares_freeaddrinfo")):
+                continue
+            if not c.get("args"):
+                continue
+            a = strip(c["args"][0])
+            if a is None or a.get("k") != "un" or a["op"] != "*" or not is_var(strip(a["e"])) or strip(a["e"])["n"] not in pnames:
+                continue
+            pn = strip(a["e"])["n"]
+            n += 1
+
+            def resets(el, pn=pn):
+                if el["k"] != "asg":
+                    return False
+                l = strip(el["e"]["l"])
+                return l is not None and l.get("k") == "un" and l["op"] == "*" and is_var(strip(l["e"]), pn)
+            k = "fn=%s %s(*%s) followed by a store to *%s" % (f.name, cn, pn, pn)
+            tr = can_reach_exit_avoiding(f, b, i, resets)
+            if tr:
+                r.viol(k, f.name, f.loc(c["ln"]), "%s releases *%s and can return without storing to *%s again: the caller is left with a pointer to freed memory (its usual cleanup frees it a second time)" % (f.name, pn, pn),
+                       trail=[f.loc(f.blocks[x].els[0]) for x in tr if f.blocks[x].els][:8])
+            else:
+                r.ok(k, f.loc(c["ln"]))
+    r.info["release_sites"] = n
+
+
 def run(prog, R, tier):
     R.assume("ares_buf_fetch/tag_fetch/peek return a view of exactly the reported length (the three functions are part of R-C02-BUFREAD's file)")
     r_bufread(prog, R)
@@ -498,6 +536,7 @@ def run(prog, R, tier):
     r_ptr(prog, R)
     r_rdlen(prog, R)
     r_replace(prog, R)
+    r_nodangle(prog, R)
     termrules.term_rule(prog, R, "R-C02-TERM", floor=4)
     files = PARSER_FILES | {f.file for f in prog.funcs.values() if f.file.startswith("src/lib/legacy/")}
     ownrules.own_rule(prog, R, "R-C02-OWN", files, floor=30, include_contract=True)
